@@ -14,8 +14,7 @@ def parse_obs(line):
 
 
 def run_both(cases, tag, timeout=3000):
-    os.makedirs(os.path.join(vlib.BUILD, "cases"), exist_ok=True)
-    cf = os.path.join(vlib.BUILD, "cases", tag + ".case")
+    cf = vlib.casefile(tag)
     with open(cf, "w") as f:
         for cid, lines in cases:
             f.write("case %s\n" % cid)
@@ -38,8 +37,7 @@ def run_both(cases, tag, timeout=3000):
 
 def run_impl_only(cases, tag, timeout=3000):
     """histories outside the model's value domain: the implementation alone (same result shape as run_both, model = impl)"""
-    os.makedirs(os.path.join(vlib.BUILD, "cases"), exist_ok=True)
-    cf = os.path.join(vlib.BUILD, "cases", tag + ".case")
+    cf = vlib.casefile(tag)
     with open(cf, "w") as f:
         for cid, lines in cases:
             f.write("case %s\n" % cid)
